@@ -68,7 +68,7 @@ func MakeIngestRequest(providerID peer.ID, privateKey crypto.PrivKey, m multihas
 		Seq:        peer.TimestampSeq(),
 	}
 
-	return makeRequestEnvelop(req, privateKey)
+	return makeRequestEnvelop(providerID, req, privateKey)
 }
 
 // ReadIngestRequest unmarshals an IngestRequest from bytes, verifies the
